@@ -102,8 +102,10 @@ type world struct {
 	cfg     *hcfg
 	app     *fiber.App
 	d       *drive.Direct
-	store   *vstore.Store        // csrf storage, or the session storage for session backends; nil for memory
-	ref     *refStore            // bKeyRef only
+	store   *vstore.Store // csrf storage, or the session storage for session backends; nil for memory
+	ref     *refStore     // bKeyRef only
+	fs      *faultStore   // journal + fault plan in front of store (not for bKeyRef / memory)
+	nReq    int
 	fctx    *fasthttp.RequestCtx // reused across requests when cfg.reuseCtx (keep-alive connection)
 	nTok    int
 	nSid    int
@@ -161,7 +163,7 @@ func mutate(tok string, which int) string {
 	return string(b)
 }
 
-func newWorld(cfg *hcfg, faults []vstore.Fault) *world {
+func newWorld(cfg *hcfg, plan *faultPlan) *world {
 	w := &world{cfg: cfg}
 	fc := fiber.Config{}
 	if cfg.mode == smProxyHTTPS || cfg.mode == smProxySpoof {
@@ -216,8 +218,8 @@ func newWorld(cfg *hcfg, faults []vstore.Fault) *world {
 	switch cfg.backend {
 	case bVstore:
 		w.store = vstore.New()
-		w.store.Faults = faults
-		cc.Storage = cloneStore{w.store}
+		w.fs = &faultStore{s: w.store, plan: plan}
+		cc.Storage = w.fs
 	case bKeyRef:
 		w.store = vstore.New()
 		w.store.KeepKeyRef = true
@@ -228,8 +230,8 @@ func newWorld(cfg *hcfg, faults []vstore.Fault) *world {
 		sc := session.Config{IdleTimeout: 200 * time.Hour, KeyGenerator: sidGen}
 		if cfg.backend != bSessMWMem {
 			w.store = vstore.New()
-			w.store.Faults = faults
-			sc.Storage = cloneStore{w.store}
+			w.fs = &faultStore{s: w.store, plan: plan}
+			sc.Storage = w.fs
 		}
 		if cfg.backend == bSessStore {
 			cc.Session = session.NewStore(sc)
@@ -272,17 +274,97 @@ func newWorld(cfg *hcfg, faults []vstore.Fault) *world {
 	return w
 }
 
-// cloneStore hands the instrumented store private copies of the keys: what a driver that
-// serialises keys (redis, sql, …) effectively does. Also keeps the journal's keys stable.
-type cloneStore struct{ s *vstore.Store }
-
-func (c cloneStore) Get(k string) ([]byte, error) { return c.s.Get(strings.Clone(k)) }
-func (c cloneStore) Set(k string, v []byte, d time.Duration) error {
-	return c.s.Set(strings.Clone(k), v, d)
+// faultPlan says which storage calls of a history fail, by the global (1-based) index of the call:
+//
+//	pmRun:       calls k .. k+n-1 fail (n=1: the classic single fault; then the store has recovered)
+//	pmOutageReq: call k and every later call fail until the request in which call k happened ends
+type faultPlan struct {
+	mode int
+	k, n int
 }
-func (c cloneStore) Delete(k string) error { return c.s.Delete(strings.Clone(k)) }
-func (c cloneStore) Reset() error          { return c.s.Reset() }
-func (c cloneStore) Close() error          { return c.s.Close() }
+
+const (
+	pmRun = iota
+	pmOutageReq
+)
+
+func (p *faultPlan) String() string {
+	if p == nil {
+		return ""
+	}
+	if p.mode == pmOutageReq {
+		return "outage from call #" + strconv.Itoa(p.k) + " to the end of that request"
+	}
+	if p.n == 1 {
+		return "call #" + strconv.Itoa(p.k) + " fails"
+	}
+	return "calls #" + strconv.Itoa(p.k) + "..#" + strconv.Itoa(p.k+p.n-1) + " fail, then recovery"
+}
+
+// faultStore sits between the middleware and the instrumented store: private copies of keys (what a
+// driver that serialises keys does), its own journal, and the fault plan. A failing call does not
+// touch the store.
+type faultStore struct {
+	s        *vstore.Store
+	plan     *faultPlan
+	calls    int
+	req      int // sequence number of the request being served (set by world.do)
+	outageIn int // pmOutageReq: the request the outage belongs to (0 = not started)
+	ops      []vstore.Op
+}
+
+func (f *faultStore) fails() bool {
+	f.calls++
+	p := f.plan
+	if p == nil {
+		return false
+	}
+	switch p.mode {
+	case pmRun:
+		return f.calls >= p.k && f.calls < p.k+p.n
+	case pmOutageReq:
+		if f.calls == p.k {
+			f.outageIn = f.req
+		}
+		return f.outageIn != 0 && f.outageIn == f.req
+	}
+	return false
+}
+
+func (f *faultStore) Get(k string) ([]byte, error) {
+	k = strings.Clone(k)
+	if f.fails() {
+		f.ops = append(f.ops, vstore.Op{Seq: f.calls, Kind: "get", Key: k, Err: true})
+		return nil, vstore.ErrInjected
+	}
+	v, err := f.s.Get(k)
+	f.ops = append(f.ops, vstore.Op{Seq: f.calls, Kind: "get", Key: k, Found: v != nil, Err: err != nil})
+	return v, err
+}
+
+func (f *faultStore) Set(k string, v []byte, d time.Duration) error {
+	k = strings.Clone(k)
+	if f.fails() {
+		f.ops = append(f.ops, vstore.Op{Seq: f.calls, Kind: "set", Key: k, Err: true})
+		return vstore.ErrInjected
+	}
+	err := f.s.Set(k, v, d)
+	f.ops = append(f.ops, vstore.Op{Seq: f.calls, Kind: "set", Key: k, Err: err != nil})
+	return err
+}
+
+func (f *faultStore) Delete(k string) error {
+	k = strings.Clone(k)
+	if f.fails() {
+		f.ops = append(f.ops, vstore.Op{Seq: f.calls, Kind: "delete", Key: k, Err: true})
+		return vstore.ErrInjected
+	}
+	err := f.s.Delete(k)
+	f.ops = append(f.ops, vstore.Op{Seq: f.calls, Kind: "delete", Key: k, Err: err != nil})
+	return err
+}
+func (f *faultStore) Reset() error { return f.s.Reset() }
+func (f *faultStore) Close() error { return f.s.Close() }
 
 // refStore passes keys through untouched, so the store's map keeps the very string the
 // middleware passed (as gofiber's map-based memory drivers, incl. /repo/internal/storage/memory,
@@ -390,6 +472,10 @@ func (w *world) do(q *wire) *drive.Resp {
 	}
 	w.genReq = w.genReq[:0]
 	w.entries = w.entries[:0]
+	w.nReq++
+	if w.fs != nil {
+		w.fs.req = w.nReq
+	}
 	if w.fctx != nil {
 		// what fasthttp's server loop does between requests of a connection
 		w.fctx.Response.Reset()
@@ -849,20 +935,20 @@ func (rn *runner) originFor(s *step, method string) (o, ref *hdrVal) {
 
 // storageFaults inspects the journal entries added by the last request.
 func (rn *runner) opsSince(from int) (ops []vstore.Op) {
-	if rn.w.store == nil {
+	if rn.w.fs == nil {
 		return nil
 	}
-	all := rn.w.store.Ops
+	all := rn.w.fs.ops
 	if from < len(all) {
 		return all[from:]
 	}
 	return nil
 }
 
-func runHistory(e *ev.Env, c *ev.Case, hs *histSpec, faults []vstore.Fault, plan string) (w *world, nontrivial bool) {
+func runHistory(e *ev.Env, c *ev.Case, hs *histSpec, fp *faultPlan, plan string) (w *world, nontrivial bool) {
 	cfg := hs.cfg
 	rn := &runner{e: e, c: c, hs: hs, plan: plan}
-	rn.w = newWorld(cfg, faults)
+	rn.w = newWorld(cfg, fp)
 	rn.m = &model{cfg: cfg, tokens: map[string]*tokInfo{}}
 	for i := 0; i < hs.nClients; i++ {
 		rn.m.clients = append(rn.m.clients, &client{})
@@ -945,8 +1031,8 @@ func (rn *runner) step(s *step) {
 	now := vt.Since()
 	wall := time.Now()
 	opsFrom := 0
-	if w.store != nil {
-		opsFrom = len(w.store.Ops)
+	if w.fs != nil {
+		opsFrom = len(w.fs.ops)
 	}
 	// what the token store really holds right before the request (own instrumented store only)
 	reallyStored := true
@@ -990,7 +1076,7 @@ func (rn *runner) step(s *step) {
 	}
 	// notStored: the response hands out token t although the Set that should have persisted it failed
 	notStored := func(t string) bool {
-		if w.store == nil || !anyFault {
+		if w.fs == nil || !anyFault {
 			return false
 		}
 		if isSession(cfg.backend) {
@@ -1154,9 +1240,16 @@ func (rn *runner) step(s *step) {
 			// statement covers this is debatable: counted, not reported
 			e.Stat("fault_delete_token_error_token_still_usable", 1)
 		case ti != nil && ti.consumeFault && extReason == "consumed-single-use":
-			rn.viol("fault|storage-delete-error|single-use-token-reusable",
-				"a single-use token was accepted a second time after the storage delete that should have consumed it failed",
-				map[string]any{"status": resp.Status})
+			if isSession(cfg.backend) {
+				// the session that holds the token could not be loaded / saved while the token was consumed
+				rn.viol("fault|session-store-error|single-use-token-reusable",
+					"a single-use token was accepted a second time: the request that used it ran while the session store was failing and the token was never removed",
+					map[string]any{"status": resp.Status})
+			} else {
+				rn.viol("fault|storage-delete-error|single-use-token-reusable",
+					"a single-use token was accepted a second time after the storage delete that should have consumed it failed",
+					map[string]any{"status": resp.Status})
+			}
 		default:
 			extra := map[string]any{"status": resp.Status, "token_state": extReason, "origin_class": oclass}
 			if gov != nil {
@@ -1216,7 +1309,7 @@ func (rn *runner) step(s *step) {
 	if ti != nil {
 		if cfg.singleUse {
 			if ti.state != stDead {
-				ti.consumeFault = delFault
+				ti.consumeFault = delFault || (isSession(cfg.backend) && anyFault)
 			}
 			m.kill(q.ext, "consumed-single-use")
 		} else if extBefore == stLive || extBefore == stUncertain {
